@@ -701,6 +701,7 @@ func (x *Exec) bindResults(env *CEnv, fn *ssa.Function, res *Val) {
 type modSet struct {
 	heaps     map[string]bool
 	allHeaps  bool
+	extHeaps  bool // an external call: everything except repository-typed objects that were not passed to it
 	cells     map[string]bool
 	cellTypes map[string]types.Type
 	ghost     map[string]bool
@@ -725,6 +726,7 @@ func (m *modSet) union(o *modSet, withCells bool) {
 		}
 	}
 	m.allHeaps = m.allHeaps || o.allHeaps
+	m.extHeaps = m.extHeaps || o.extHeaps
 	m.alloc = m.alloc || o.alloc
 }
 
@@ -867,7 +869,7 @@ func (x *Exec) modOfCall(m *modSet, cc *ssa.CallCommon) {
 			gm(x, m)
 			return
 		}
-		m.allHeaps = true
+		m.extHeaps = true
 		m.alloc = true
 		return
 	}
@@ -880,6 +882,31 @@ func (x *Exec) modOfCall(m *modSet, cc *ssa.CallCommon) {
 			if x.inlinableStatic(f) {
 				m.union(x.funcMods(f), false)
 			}
+		}
+	}
+	// memory passed to the call (one to three pointer/slice levels) may be written by an external callee
+	notePassed := func() {
+		for _, a := range cc.Args {
+			t := a.Type()
+			for depth := 0; depth < 3 && t != nil; depth++ {
+				switch u := t.Underlying().(type) {
+				case *types.Pointer:
+					m.heaps[x.heapName(u.Elem())] = true
+					t = u.Elem()
+				case *types.Slice:
+					m.heaps[x.heapName(u.Elem())] = true
+					t = u.Elem()
+				default:
+					t = nil
+				}
+			}
+		}
+	}
+	if cc.IsInvoke() {
+		notePassed()
+	} else if f, ok := cc.Value.(*ssa.Function); ok && !x.inlinableStatic(f) && x.w.contractOf(f) == nil {
+		if _, modelled := libModels[funcKey(f)]; !modelled {
+			notePassed()
 		}
 	}
 	switch callee := cc.Value.(type) {
@@ -945,7 +972,7 @@ func (x *Exec) modOfFunc(m *modSet, callee *ssa.Function) {
 		strings.HasPrefix(key, "strconv.") || strings.HasPrefix(key, "strings.") || strings.HasPrefix(key, "unicode.") {
 		return
 	}
-	m.allHeaps = true
+	m.extHeaps = true
 	m.alloc = true
 }
 
